@@ -174,6 +174,12 @@ def run_case(c, module=None):
                 src = objs[op["src"]]
                 d = src.to_dict()
                 st["dict_keys"] = sorted(k for k in d if k != "__class__")
+                def plain(x):
+                    if isinstance(x, dict): return {k: plain(v) for k, v in x.items() if k != "__class__"}
+                    if hasattr(x, "tolist"): return x.tolist()
+                    if isinstance(x, (list, tuple)): return [plain(v) for v in x]
+                    return x
+                st["dict"] = plain(d)
                 d2 = dict(d); d2.pop("__class__", None)
                 objs[op["name"]] = type(src).from_dict(d2, _buffer=bufs[op.get("buf", "B0")])
             elif o == "pickle":
